@@ -10,10 +10,10 @@ CLAIMED = {
                 "conversions equal the report's, every Newton exit satisfies Kepler's equation to 1e-12, Kepler's equation has exactly one solution and the returned "
                 'E+omega is within 1e-12/(1-sqrt eL2) rad of it (MVT/IVT); the two remaining leaves (|1+cos i| < 1.5e-12) are proved unreachable for inclinations with '
                 'four decimals; the ISS set and a small-eccentricity set are proved to be on their paths by interval arithmetic. PARTIAL: Newton convergence within 10 '
-                'iterations, binary64 rounding and the velocity counterpart are sampled; the 1 mm claim itself is PROVED over the reals for a <= 2 earth radii and eL^2'
-                " <= 4/25 (every near-earth orbit has a < 1.93): each coordinate of the returned position is within 1e-6 km of the report's position at the unique "
-                "exact solution of Kepler's equation, via a compositional Lipschitz calculus (310000 km/rad) - C01_position_accuracy*: implementation vs an independent"
-                ' evaluation of the report (worst 0.011 mm) and the AIAA vectors',
+                'iterations, binary64 rounding is sampled; the 1 mm / 1 um/s claim itself is PROVED over the reals for a <= 2 earth radii and eL^2 <= 4/25 (every near-'
+                "earth orbit has a < 1.93): each coordinate of the returned position is within 1e-6 km, and of the returned velocity within 1e-9 km/s, of the report's "
+                "at the unique exact solution of Kepler's equation, via a compositional Lipschitz calculus (310000 km/rad, 460 (km/s)/rad) - C01_position_accuracy*: "
+                'implementation vs an independent evaluation of the report (worst 0.011 mm) and the AIAA vectors',
         "design_ref": 'DESIGN.md 5/C01',
         "note": 'trusted: Coq kernel, stdlib real axioms (+ Uint63/float primitives via Interval in the example), translator (self-checked each run on outcome class '
                 'and state), Spec_SGP4.v transcription (cross-checked by the Gen=Spec proofs: a slip in D4 was caught that way). Known finding C01:aiaa:29141 (decaying'
